@@ -79,6 +79,8 @@ def _opts(rnd):
         opts.append((4, bytes([rnd.randrange(1, 3)])))  # ChannelID
     if rnd.random() < 0.2:
         opts.append((1, b""))  # RTP, zero-length
+    if rnd.random() < 0.15:
+        opts.insert(rnd.randrange(len(opts) + 1), rnd.choice(opts))  # an exactly repeated option: legal, unusual
     out = b""
     for i, (cmd, data) in enumerate(opts):
         out += bytes([cmd | (0x80 if i < len(opts) - 1 else 0), len(data)]) + data
